@@ -372,6 +372,9 @@ func runProtocol(kc *kernelCtx, blocks []*Block, only string, want map[string]bo
 	if on("C09") || on("C19") {
 		pc.p1CtxKeys(only)
 	}
+	if on("C03") || on("C14") || on("C17") {
+		pc.p2BareReceive(only)
+	}
 	if on("C08") || on("C05") || on("C02") {
 		pc.p7NoTryLock(only)
 	}
